@@ -96,6 +96,7 @@ def run_job(job):
             xa, xb = regs[a][1], regs[b][1]
             return {'t': 'expr', 'op': op, 'ids': [a, b]}, (lambda xa=xa, xb=xb, op=op: K.apply_op(op, [xa, xb]))
 
+        cam_id = new_mv('sparse') if rng.random() < 0.3 else 0
         nsub = rng.randint(2, 6)
         top = [gen(2, top=True) for _ in range(nsub)]
         tree = [t[0] for t in top]
@@ -135,13 +136,19 @@ def run_job(job):
 
         def base(step, eid):
             return {'id': eid, 'kind': 'widget', 'step': step, 'raised': '', 'tree': tree, 'payload': [], 'key2idx': [], 'signature': [],
-                    'cayley': [], 'dp': [], 'dpids': [], 'dpi': [], 'dpi_expected': [], 'dragids': [], 'newpoints': [], 'mvs': snapshot()}
+                    'cayley': [], 'dp': [], 'dpids': [], 'dpi': [], 'dpi_expected': [], 'dragids': [], 'newpoints': [], 'mvs': snapshot(),
+                    'hascamera': False, 'camera': {'t': 'int', 'v': 0}, 'camid': 0}
         eid = f"{job['prefix']}:{si}"
         try:
             ev = base('create', eid + '.c')
             w = None
             try:
-                w = alg.graph(*objs, lineWidth=2)
+                opts = {'lineWidth': 2}
+                if cam_id:
+                    opts['camera'] = regs[cam_id][1]
+                w = alg.graph(*objs, **opts)
+                if cam_id:
+                    ev['hascamera'], ev['camera'], ev['camid'] = True, conv(w.options['camera']), cam_id
                 ev['payload'] = [conv(x) for x in w.subjects]
                 ev['key2idx'] = [[int(k), int(v)] for k, v in w.key2idx.items()]
                 ev['signature'] = [int(s) for s in w.signature]
